@@ -120,6 +120,15 @@ def run_net(prop, tier, seed, profiles, rule, assumptions, models=(), level='mod
                                     env={'VPROP': prop}, describe_fn=describe)
             if v:
                 break
+        # the corpus of recorded call sequences (counterexamples of the implementation-shaped models, earlier findings)
+        import glob
+        for f in sorted(glob.glob(os.path.join(vlib.VERIF, 'problems', 'net_*.ndjson'))):
+            if ev.violations:
+                break
+            outp = os.path.join(rd, 'corpus_' + os.path.basename(f))
+            vlib.run([drv, 'replay', f, outp], timeout=300, check=False)
+            vlib.validate_batch(ev, prop, 'NetworkTrace', vlib.read_lines(outp), signature, 'corpus-' + os.path.basename(f)[4:-7],
+                                timeout=600, env={'VPROP': prop}, describe_fn=describe)
         ev.cov['distinct_nontrivial'] = len(distinct)
         ev.cov['executions_dropped_wide_numbers'] = dropped
     finally:
